@@ -31,6 +31,10 @@ def check(pid, tier):
     if len(cfgs) > cap:
         cfgs = rng.sample(cfgs, cap)
         ev.cov["exhaustive"] = False
+    # components that are never updated (start at or after the end) or finish early still own spill files
+    for fam, n in (("lateidle", 60 if tier == "quick" else 600), ("finisher", 40 if tier == "quick" else 400)):
+        got = tlc.emit("SchedEmit", {"FAMILY": fam})
+        cfgs += rng.sample(got, min(len(got), n))
     # composition-wide limits, and limits set on the slots themselves (location from the composition)
     jobs = [(c, None, lim) for c in cfgs for lim in (None, 0, 8, 20)] + [(c, None, None, lim) for c in cfgs for lim in (0, 12)]
     traces = run_configs(jobs)
@@ -53,6 +57,10 @@ def check(pid, tier):
         p = sched_property(verdict, t["cfg"])
         if (t["end"]["limit"] != -1 or t["end"]["slot_limit"] != -1) and jdump(t["cfg"]) in unlimited_ok:
             p = PID
+        # a trace rejected by an earlier clause of another property may hide the C10 clauses of the
+        # end record: they are evaluated on the record itself (run returned, files left / stray files)
+        if p != PID and t["end"]["out"] == "done" and t["end"]["files"] != 0:
+            p, verdict = PID, "no-files-after-finalize@end (first rejection: " + verdict + ")"
         if p != PID:
             continue
         path = save_replay(pid, {"kind": "sched-trace", "verdict": verdict, "trace": t,
